@@ -38,7 +38,7 @@ U.fn(F, 'LineIndex::line_to_pos', requires=K['line_to_pos'][0], ensures=K['line_
      prologue='proof { let s = self.view(); lemma_ropey_lines(s); lemma_off_mono_all(s); lemma_nth_last(s); if line < nlines(s) { lemma_nth(s, line as nat); } }')
 U.fn(F, 'LineIndex::line_col_to_pos', requires=K['line_col_to_pos'][0], ensures=K['line_col_to_pos'][1],
      prologue='proof { let s = self.view(); lemma_ropey_lines(s); lemma_off_mono_all(s); lemma_nth_last(s); if line < nlines(s) { lemma_line_shape(s, line as nat); } }',
-     loops={0: dict(invariant=['self.wf()', 'line < nlines(self.view())', 'start == nth_start(self.view(), line as nat)',
+     loops={0: dict(optional=True, invariant=['self.wf()', 'line < nlines(self.view())', 'start == nth_start(self.view(), line as nat)',
                                'start <= end <= nth_start(self.view(), (line + 1) as nat) <= self.view().len()',
                                'forall|j: int| end <= j < nth_start(self.view(), (line + 1) as nat) ==> is_eol(#[trigger] self.view()[j])'],
                     after_loop_proof='proof { let s = self.view(); lemma_line_shape(s, line as nat); let e = content_end(s, start as int); '
